@@ -6,8 +6,12 @@ integrable law.  TLC proves Semigroup / BulkConsistent / ExactAtBoundaries / Ste
 for every reachable state and prints every behaviour (all splits t0 < t1 < t2, batch sizes 1-4,
 output grids with 0-3 interior times, with and without an event between output times, and the
 caller passing the event queue in every call or only up to some call - action DropEvents: later
-calls hand over scheduled_events = None / [] to the SAME dynamics object) with the exact states
-after every call.  The named deviation StaleThrust (finite_thrust only reset when events are
+calls hand over scheduled_events = None / [] to the SAME dynamics object; the memory layout of
+the (6, K) argument: C, Fortran / transposed, strided view, read-only) with the exact states
+after every call.  OutputsImmutable (action property): what a completed call returned never
+changes - the replay keeps every returned array WITHOUT copying it and re-reads all of them
+after the last call of the behaviour (no aliasing with later results, arguments or internal
+buffers).  The named deviation StaleThrust (finite_thrust only reset when events are
 passed) is refuted by TLC.  The behaviours are replayed into the real code:
 
 (a) EXACT  the real Celestial.propagate / propagateBulk driven by `ExactLaw`: every output of every
@@ -81,6 +85,46 @@ def passed_events(call, ci: int, events):
     return None if ci % 2 else []
 
 
+LAYOUTS = ("C", "F", "strided", "readonly")
+
+
+def as_layout(x, layout: str):
+    """The same (6, K) values in another memory layout (spec variable `layout`): C-contiguous, Fortran-ordered (the
+    transpose of a (K, 6) array, what numpy.array(states).T gives), a strided view (every second column of a wider array,
+    NaN in between) or a read-only array."""
+    x = np.asarray(x, dtype=float)
+    if x.ndim == 1 or layout == "C":
+        return np.ascontiguousarray(x)
+    if layout == "F":
+        return np.ascontiguousarray(x.T).T
+    if layout == "strided":
+        wide = np.full((x.shape[0], 2 * x.shape[1]), np.nan)
+        wide[:, ::2] = x
+        return wide[:, ::2]
+    if layout == "readonly":
+        y = x.copy()
+        y.flags.writeable = False
+        return y
+    raise ValueError(layout)
+
+
+def stale_results(kept) -> str | None:
+    """OutputsImmutable (Kinematics.tla): every array a call returned must still hold what it held when it was returned,
+    after ALL later calls of the behaviour; kept = [(call index, returned array - not copied, its copy at return time,
+    the argument array)].  Returns a description of the first array that changed, or None."""
+    for n, (ci, res, snap, _arg) in enumerate(kept):
+        if not np.array_equal(res, snap, equal_nan=True):
+            alias = [cj for cj, other, _s, _a in kept[n + 1:] if np.shares_memory(res, other)]
+            d = float(np.nanmax(np.abs(np.asarray(res, dtype=float) - snap)))
+            return (f"the array returned by call {ci + 1} changed by up to {d:.3g} after later calls"
+                    + (f" (it shares memory with the array returned by call {alias[0] + 1})" if alias else ""))
+    for n, (ci, res, _snap, _arg) in enumerate(kept):
+        for cj, other, _s, arg in kept[n + 1:]:
+            if np.shares_memory(res, other) or np.shares_memory(res, arg):
+                return f"the array returned by call {ci + 1} shares memory with the result or the argument of call {cj + 1}"
+    return None
+
+
 # ------------------------------------------------------------------ (a) exact law
 def crash_signature(prefix: str, call_kind: str, ex: Exception) -> str:
     """propagateBulk has one known crash site: a restart segment without any requested output time."""
@@ -100,16 +144,19 @@ def exact_one(b, method: str, tau: float, rng: random.Random, tag: str = "exact-
     kk = b["K"]
     x = emb.batch(b["X0"])
     outputs = 0
+    kept = []
     for ci, call in enumerate(b["hist"]):
         times = [t * tau for t in call["times"]]
+        arg = as_layout(x, call.get("layout", "C"))
+        arg_before = arg.copy()
         try:
             with guard(20.0):
                 if call["kind"] == "single":
-                    res = dyn.propagate(times[0], times[1], x[:, 0] if kk == 1 else x,
+                    res = dyn.propagate(times[0], times[1], arg[:, 0] if kk == 1 else arg,
                                         scheduled_events=passed_events(call, ci, events))
                     outs = [np.asarray(res, dtype=float).reshape(6, kk)]
                 else:
-                    res = dyn.propagateBulk(times, x, scheduled_events=passed_events(call, ci, events))
+                    res = dyn.propagateBulk(times, arg, scheduled_events=passed_events(call, ci, events))
                     if res.shape != (6, kk, len(times) - 1):
                         return (f"{tag}:bulk-output-shape", f"propagateBulk returned shape {res.shape} for K={kk}, "
                                 f"{len(times) - 1} output times", {"call": ci}), outputs
@@ -130,9 +177,18 @@ def exact_one(b, method: str, tau: float, rng: random.Random, tag: str = "exact-
                 if off > 1e-6 or not K.close(vv, want[k][1]) or abs(p2 - want[k][0]) > tol_p:
                     sig = f"{tag}:propagate-state" if call["kind"] == "single" else f"{tag}:bulk-output"
                     return (sig, f"{call['kind']} call over ticks {call['times']} (K={kk}, burn [{burn['ts']},{burn['te']})"
-                            f"{', events passed' if call.get('q', 1) > 0 else ', NO events passed (same dynamics object)'}): output {j + 1} column "
+                            f"{', events passed' if call.get('q', 1) > 0 else ', NO events passed (same dynamics object)'}"
+                            f", argument layout {call.get('layout', 'C')}): output {j + 1} column "
                             f"{k + 1} is (2p, v) = ({p2:.9f}, {vv:.9f}), spec says {want[k]}", {"call": ci, "output": j, "column": k}), outputs
+        if not np.array_equal(arg, arg_before, equal_nan=True):
+            return (f"{tag}:argument-modified", f"{call['kind']} call over ticks {call['times']} changed the state array it was given "
+                    f"(layout {call.get('layout', 'C')})", {"call": ci}), outputs
+        kept.append((ci, res, np.array(res, dtype=float, copy=True), arg))
         x = outs[-1].copy()
+    stale = stale_results(kept)
+    if stale:
+        return (f"{tag}:earlier-result-changed-by-later-call", f"calls {[[c['kind'], c['times']] for c in b['hist']]} on one dynamics "
+                f"object (K={kk}): {stale}; a result handed out must keep the states of its own call", {}), outputs
     return None, outputs
 
 
@@ -154,7 +210,7 @@ def exact_replay(ctx: Ctx, behs, rng: random.Random, tag: str = "exact-law") -> 
             K.flush_events()
             stats["behaviours"] += 1
             stats["outputs"] += n_out
-            ctx.case((tag, tuple(b["law"]), b["hor"], b["K"], b["burn"]["ts"], b["burn"]["te"], b.get("dropAt"), tuple(tuple(c["times"]) for c in b["hist"]),
+            ctx.case((tag, tuple(b["law"]), b["hor"], b["K"], b["burn"]["ts"], b["burn"]["te"], b.get("dropAt"), b.get("layout", "C"), tuple(tuple(c["times"]) for c in b["hist"]),
                       tuple(c["kind"] for c in b["hist"]), method),
                      nontrivial=len(b["hist"]) > 1 or b["K"] > 1 or b["hist"][0]["kind"] == "bulk",
                      sample={"part": "exact", "law": b["law"], "K": b["K"], "burn": b["burn"], "method": method, "dropAt": b.get("dropAt"),
@@ -312,19 +368,23 @@ def real_one(ctx: Ctx, b, model: str, method: str, tight: bool, tick: float, rng
         ctx.violation(sig, f"(b) real {model}/{method} ({'rtol 1e-13' if tight else 'shipped tolerances'}): " + what, {**desc, **extra})
 
     x = x0.copy()
+    layout = LAYOUTS[stats["behaviours"] % len(LAYOUTS)] if kk >= 2 else "C"     # spec variable `layout`
+    desc["layout"] = layout
+    kept = []
     e0h0 = [first_integrals(x0[:, k]) for k in range(kk)]
     pts = [[[0, 0, 0, 0]] for _ in range(kk)]
     failed = False
     for ci, call in enumerate(b["hist"]):
         times = [t * tick for t in call["times"]]
+        arg = as_layout(x, layout)
         try:
             with guard(patience):
                 if call["kind"] == "single":
-                    res = dyn.propagate(times[0], times[1], x[:, 0].copy() if kk == 1 else x.copy(),
+                    res = dyn.propagate(times[0], times[1], arg[:, 0].copy() if kk == 1 else arg,
                                         scheduled_events=passed_events(call, ci, events()))
                     outs = [np.asarray(res, dtype=float).reshape(6, kk)]
                 else:
-                    res = dyn.propagateBulk(times, x.copy(), scheduled_events=passed_events(call, ci, events()))
+                    res = dyn.propagateBulk(times, arg, scheduled_events=passed_events(call, ci, events()))
                     outs = [np.asarray(res[:, :, j], dtype=float) for j in range(res.shape[2])]
         except Hang:
             fail(f"real:{model}:propagate-does-not-terminate", f"{call['kind']} call {times} did not return within {patience:g} s", {"call": ci})
@@ -394,7 +454,13 @@ def real_one(ctx: Ctx, b, model: str, method: str, tight: bool, tick: float, rng
                     e0, h0 = e0h0[k]
                     hn = np.linalg.norm(h0)
                     pts[k].append([int(round(1e9 * (en - e0) / abs(e0)))] + [int(round(1e9 * float(d) / hn)) for d in (hv - h0)])
+        kept.append((ci, res, np.array(res, dtype=float, copy=True), arg))
         x = outs[-1].copy()
+    stale = stale_results(kept)
+    if stale and not failed:
+        fail(f"real:{model}:earlier-result-changed-by-later-call", f"{stale}; a result handed out must keep the states of its own call",
+             {"calls": desc["calls"]})
+        failed = True
     if model == "tb":
         for k in range(kk):
             revs = b["hist"][-1]["times"][-1] * tick / orbits[k][2]
@@ -597,6 +663,36 @@ def real_replay(ctx: Ctx, behs, rng: random.Random):
     return stats, traces
 
 
+def zero_length_grid_probe(ctx: Ctx) -> dict:
+    """propagate(t0, t0, x) refuses a zero-length request (ValueError).  propagateBulk([t0, t0], x) must either refuse
+    it the same way or return the initial state for the single output time - never other numbers."""
+    out = {"cases": 0, "raised": 0, "returned_initial_state": 0}
+    for method in ("RK45", "DOP853"):
+        for kk in (1, 3):
+            emb = K.Embed(random.Random(kk), 10.0, ALPHA)
+            dyn = K.ExactLaw(np.zeros(3), method=method)
+            x = emb.batch([[2 * k, 3 + k] for k in range(kk)])
+            out["cases"] += 1
+            ctx.case(("zero-length-grid", method, kk), nontrivial=False)
+            try:
+                with guard(20.0):
+                    res = np.asarray(dyn.propagateBulk([50.0, 50.0], x.copy()), dtype=float)
+            except Hang:
+                ctx.violation("exact-law:bulk-zero-length-grid-does-not-terminate", "propagateBulk([t0, t0], x) did not return", {})
+                continue
+            except ValueError:
+                out["raised"] += 1
+                continue
+            if res.shape[:2] == x.shape and np.allclose(res.reshape(6, kk, -1)[:, :, -1], x, rtol=0, atol=1e-12):
+                out["returned_initial_state"] += 1
+                continue
+            ctx.violation("exact-law:bulk-zero-length-grid-returns-other-states",
+                          f"propagateBulk([t0, t0], x) with K={kk} ({method}) neither raises (propagate(t0, t0, x) raises ValueError) nor "
+                          f"returns the initial state: shape {res.shape}, largest |value| {float(np.abs(res).max()):.3g} "
+                          f"(initial state has {float(np.abs(x).max()):.3g})", {"part": "zero-length-grid", "method": method, "K": kk})
+    return out
+
+
 def validate_traces(ctx: Ctx, traces: list) -> dict:
     """impl -> spec: the logged first integrals must stutter (TraceKinematics.tla)."""
     d = ctx.sub("traces")
@@ -653,6 +749,12 @@ def run(ctx: Ctx):
         "the integrator tolerance on correct code (shared step sequence) and is not compared with SRP on",
         "a call that is handed no events must behave like a fresh dynamics object (DropEvents / StaleThrust in Kinematics.tla); "
         "TwoBody never reads finite_thrust, so on real dynamics only SpecialPerturbations can show a stale thrust",
+        "every array a call returns is kept un-copied and compared with its copy after the last call of the behaviour; results "
+        "that share memory with each other or with an argument are a violation (OutputsImmutable); arguments must not be modified",
+        "argument layouts: the exact-law run poses C / Fortran(transposed) / strided-view / read-only batches (K = 2, 3) through "
+        "the spec; the real replay rotates the four layouts over its K >= 2 behaviours",
+        "a zero-length grid propagateBulk([t0, t0], x) is outside the quantifier (durations from seconds) but must not return "
+        "invented states: raising like propagate(t0, t0) or returning the initial state are both accepted",
         "accuracy of perturbed propagation against an external truth is not decided",
     ]
     res, behs = K.run_spec(ctx, "calls", "Kinematics.tla Mode=calls: all call sequences/batches/grids; C03 invariants + behaviours",
@@ -673,6 +775,12 @@ def run(ctx: Ctx):
     # closed burns through propagate/propagateBulk (two roots inside one call): own signatures, because on a tree with
     # defect D10 (C15) they fail for that reason
     ctx.extra["exact_closed_burn"] = exact_replay(ctx, closed, rng, tag="exact-law:closed-burn")
+    # the memory layout of the (6, K) argument is part of the posed call (spec variable `layout`): batches only
+    _, layouts = K.run_spec(ctx, "layouts", "Kinematics.tla Mode=calls, every memory layout of the state argument (K >= 2)",
+                            invs=INV03, emit="BEHL", **dict(spec_cfg(ctx), Horizon=3 if ctx.quick else 4, MaxInterior=1, MaxCalls=2,
+                                                            Ks="{2, 3}", Laws="LawsOne", Layouts="LayoutsAll", CallerMayDrop="FALSE"))
+    ctx.extra["exact_layouts"] = exact_replay(ctx, [b for b in layouts if b["layout"] != "C"], rng, tag="exact-law:layout")
+    ctx.extra["zero_length_grid"] = zero_length_grid_probe(ctx)
     stats, traces = real_replay(ctx, behs, rng)
     ctx.extra["real"] = stats
     ctx.extra["conservation"] = validate_traces(ctx, traces) if traces else {"traces": 0}
